@@ -964,7 +964,30 @@ func (e *ex) configured(code int, rb, body string, shapes []rawShape, def []int6
 		if def != nil {
 			e.latency = def[2]
 		}
-		if d := e.settle(); d != 0 {
+		// "an accepted configuration applies (in full) to connections accepted afterwards": whatever was
+		// posted before - also this very body - the active shapes are now exactly the posted ones with
+		// their posted counts
+		d := e.settle()
+		for id, os := range e.cfg {
+			var want []string
+			for _, h := range os.halts {
+				want = append(want, strconv.FormatInt(h.rem, 10))
+			}
+			for _, c := range os.closes {
+				want = append(want, strconv.FormatInt(c.rem, 10))
+			}
+			w := "-"
+			if len(want) > 0 {
+				w = strings.Join(want, ",")
+			}
+			if got := e.counts(id); got != w {
+				r := fail("c18:accepted-config-not-installed", "the configuration was accepted (200) but the active shape %s has the action counts %s, posted were %s (history: %d configurations accepted before, %d bucket goroutines started instead of %d): %s",
+					id, got, w, e.gen-1, n+d, n, body)
+				r.Impl = "accepted"
+				return r
+			}
+		}
+		if d != 0 {
 			return fail("c18:leak:accept-extra-goroutines", "accepting a configuration with %d shapes started %d bucket goroutines", n, n+d)
 		}
 		return core.Result{Impl: "accepted"}
@@ -1139,8 +1162,44 @@ func (e *ex) doCtx(id, u, rsS, hlS, f string) core.Result {
 	if ctx.ThrottleContext != nil && ctx.ThrottleContext.ThrottleNow {
 		thr = strconv.FormatInt(ctx.ThrottleContext.Bandwidth, 10)
 	}
-	return core.Result{Impl: fmt.Sprintf("ctx shaping=1 regex=%s next=%s thr=%s cap=%d", idOfRegex[ctx.URLRegex], nextStr(ctx.NextActionInfo), thr,
+	res := core.Result{Impl: fmt.Sprintf("ctx shaping=1 regex=%s next=%s thr=%s cap=%d", idOfRegex[ctx.URLRegex], nextStr(ctx.NextActionInfo), thr,
 		ctx.Buckets.WriteBucket.Capacity()), ModelOp: mop}
+	if r.shaped {
+		if sig, msg := throttleAtStart(r.os, rs, ctx); sig != "" {
+			res.Sig, res.Fail = sig, fmt.Sprintf("conn %s, URL %s: %s", id, url, msg)
+		}
+	}
+	return res
+}
+
+// throttleAtStart is the property's reading of "throttles apply": a response that starts at body offset
+// rs inside a configured throttle interval [start, end) - whatever the order the throttles were posted
+// in - is written under that throttle's bandwidth from its first body byte on, and a response that
+// starts outside every interval under none.
+func throttleAtStart(os *oShape, rs int64, ctx *trafficshape.Context) (string, string) {
+	if os == nil || ctx == nil || ctx.ThrottleContext == nil {
+		return "", ""
+	}
+	var want int64 = -1
+	for _, t := range os.thr {
+		if t[0] <= rs && (t[1] == -1 || rs < t[1]) {
+			want = t[2]
+		}
+	}
+	got := int64(-1)
+	if ctx.ThrottleContext.ThrottleNow {
+		got = ctx.ThrottleContext.Bandwidth
+	}
+	switch {
+	case want >= 0 && got != want:
+		core.Count("ctx:starts-inside-throttle")
+		return "c18:throttle-not-applied", fmt.Sprintf("the response starts at body offset %d, inside the configured throttle of %d B/s, but the write context has throttle %d (-1 = none): its bytes go out without the configured delay", rs, want, got)
+	case want >= 0:
+		core.Count("ctx:starts-inside-throttle")
+	case got >= 0:
+		return "c18:throttle-outside-interval", fmt.Sprintf("the response starts at body offset %d, outside every configured throttle interval, but is throttled to %d B/s", rs, got)
+	}
+	return "", ""
 }
 
 func (e *ex) counts(regexID string) string {
